@@ -18,13 +18,14 @@ class Unsupported(Exception):
 # ---- types -------------------------------------------------------------------------------------
 NAT, X, F, BOOL, AGENT, DIR, INTLIT, UNIT, ZT = "nat", "xnum", "F", "bool", "A", "dir", "intlit", "unit", "Z"
 def OPT(t): return ("option", t)
+def RES(t): return ("result", t)          # a computation that may raise: rendered as option, bound monadically
 def LIST(t): return ("list", t)
 def TUP(*ts): return ("tuple",) + tuple(ts)
 
 
 def coqty(t) -> str:
     if isinstance(t, tuple):
-        if t[0] == "option": return f"(option {coqty(t[1])})"
+        if t[0] in ("option", "result"): return f"(option {coqty(t[1])})"
         if t[0] == "list": return f"(list {coqty(t[1])})"
         if t[0] == "tuple": return "(" + " * ".join(coqty(x) for x in t[1:]) + ")"
     return {"intlit": "nat"}.get(t, t)
@@ -104,7 +105,7 @@ class Translator:
             raise Unsupported("varargs")
         self.owned = owned
         body, ty = self.tr_body(list(fn.body), env)
-        rty = OPT(spec.ret) if spec.fallible else spec.ret
+        rty = RES(spec.ret) if spec.fallible else spec.ret
         if not self.compatible(ty, rty):
             raise Unsupported(f"{spec.func}: returns {ty}, expected {rty}")
         ps = " ".join(f"({cq} : {coqty(t)})" for _, cq, t in spec.params)
@@ -127,6 +128,14 @@ class Translator:
     # -- expressions ---------------------------------------------------------------------------
     def tr(self, n, env):
         sp = self.spec
+        idi = sp.attrs.get("idioms")
+        if idi:
+            key = " ".join(ast.unparse(n).split())
+            if key in idi:
+                tmpl, ty = idi[key]
+                names = {nm: (env[nm][0] if nm in env else None) for nm in _names_in(tmpl)}
+                if any(v is None for v in names.values()): raise Unsupported(f"idiom {key[:40]}: unbound name")
+                return (tmpl.format(**names), ty)
         if isinstance(n, ast.Name):
             if n.id in env: return env[n.id]
             if n.id == "self" and "self_value" in sp.attrs: return sp.attrs["self_value"]
@@ -280,7 +289,7 @@ class Translator:
                 return (f"(last_opt {v})", OPT(tv[1]))
             if isinstance(sl, ast.Call) and ast.unparse(sl.func) == "int":
                 k, tk = self.tr(sl, env)                 # option Z
-                return (f"(obind {k} (py_getitem {v}))", OPT(tv[1]))
+                return (f"(obind {k} (py_getitem {v}))", RES(tv[1]))
             if isinstance(sl, ast.Constant) and isinstance(sl.value, int) and sl.value >= 0:
                 return (f"(nth_error {v} {sl.value})", OPT(tv[1]))
         raise Unsupported(f"subscript {ast.unparse(n)}")
@@ -306,7 +315,18 @@ class Translator:
             env2 = dict(env); env2[var] = (var, tL[1]); env2[other] = (other, tM[1])
             elt = _Replace(subs[0], ast.Name(id=other, ctx=ast.Load())).visit(_clone(n.elt))
             body, tb = self.tr(elt, env2)
-            return (f"(py_enum_zip (fun {var} {other} => {body}) {L} {M})", OPT(LIST(tb)))
+            return (f"(py_enum_zip (fun {var} {other} => {body}) {L} {M})", RES(LIST(tb)))
+        if isinstance(g.target, ast.Tuple) and len(g.target.elts) == 2 and all(isinstance(e, ast.Name) for e in g.target.elts) \
+                and isinstance(g.iter, ast.Call) and ast.unparse(g.iter.func) == "zip" and len(g.iter.args) == 2 and not g.iter.keywords:
+            (L1, t1), (L2, t2) = self.tr(g.iter.args[0], env), self.tr(g.iter.args[1], env)
+            if not all(isinstance(t, tuple) and t[0] == "list" for t in (t1, t2)): raise Unsupported("zip of non-lists")
+            a, b = g.target.elts[0].id, g.target.elts[1].id
+            env2 = dict(env); env2[a] = (a, t1[1]); env2[b] = (b, t2[1])
+            body, tb = self.tr(n.elt, env2)
+            fn = f"(fun p_ => let '({a}, {b}) := p_ in {body})"
+            if isinstance(tb, tuple) and tb[0] in ("option", "result"):
+                return (f"(map_opt {fn} (zip {L1} {L2}))", RES(LIST(tb[1])))
+            return (f"(map {fn} (zip {L1} {L2}))", LIST(tb))
         if isinstance(g.target, ast.Name):
             L, tL = self.tr(g.iter, env)
             if not (isinstance(tL, tuple) and tL[0] == "list"): raise Unsupported("comprehension over non-list")
@@ -347,7 +367,7 @@ class Translator:
             return (f"(xclip {txt[0]} {txt[1]} {txt[2]})", X)
         if f == "int" and len(n.args) == 1:
             v, tv = self.tr(n.args[0], env); self.need(tv, X)
-            return (f"(xtrunc {v})", OPT("Z"))
+            return (f"(xtrunc {v})", RES("Z"))
         if f == "np.argsort" and len(n.args) == 1 and not n.keywords and not (
                 "argsort_of" in sp.attrs and isinstance(n.args[0], ast.Name) and n.args[0].id == sp.attrs["argsort_of"][0]):
             arg, ta = self.tr(n.args[0], env)
@@ -378,7 +398,7 @@ class Translator:
             raise Unsupported("copy of non-list")
         if f == "get_pool_results" and len(n.args) == 1 and "pool_perm" in sp.attrs:
             v, tv = self.tr(n.args[0], env)
-            if isinstance(tv, tuple) and tv[0] == "option" and isinstance(tv[1], tuple) and tv[1][0] == "list":
+            if isinstance(tv, tuple) and tv[0] == "result" and isinstance(tv[1], tuple) and tv[1][0] == "list":
                 return (f"(option_map {sp.attrs['pool_perm']} {v})", tv)
             if isinstance(tv, tuple) and tv[0] == "list":
                 return (f"({sp.attrs['pool_perm']} {v})", tv)
@@ -391,6 +411,8 @@ class Translator:
             return sp.attrs["calls"][f](lambda k: self.tr(n.args[k], env))
         if f.startswith("self.") and f"{sp.cls}::{f}" in self.by_call:
             f = f"{sp.cls}::{f}"
+        if f.startswith("self._task.") and "Task::self." + f[len("self._task."):] in self.by_call:
+            f = "Task::self." + f[len("self._task."):]
         if f in self.by_call:
             callee = self.by_call[f]
             argnames, defaults = self.signature_defaults(callee)
@@ -418,7 +440,7 @@ class Translator:
                 if tv == OPT(None) and isinstance(ty, tuple) and ty[0] == "option": tv = ty
                 self.need(tv, ty)
                 txt.append(v)
-            rty = OPT(callee.ret) if callee.fallible else callee.ret
+            rty = RES(callee.ret) if callee.fallible else callee.ret
             return ("(" + " ".join(txt) + ")", rty)
         raise Unsupported(f"call {f}")
 
@@ -426,9 +448,9 @@ class Translator:
     def ret_wrap(self, txt, ty):
         """wrap a returned value for a fallible function"""
         if self.spec.fallible:
-            if isinstance(ty, tuple) and ty[0] == "option" and self.compatible(ty, OPT(self.spec.ret)):
-                return txt, ty          # already an option of the right type (propagated failure)
-            return f"(Some {txt})", OPT(ty)
+            if isinstance(ty, tuple) and ty[0] == "result" and self.compatible(ty, RES(self.spec.ret)):
+                return txt, ty          # a failing computation of the right type (propagated failure)
+            return f"(Some {txt})", RES(ty)
         return txt, ty
 
     def tr_body(self, stmts, env):
@@ -495,7 +517,7 @@ class Translator:
             return self.ret_wrap(t, ty)
         if isinstance(st, ast.Raise):
             if not sp.fallible: raise Unsupported("raise in total function")
-            return ("None", OPT(sp.ret))
+            return ("None", RES(sp.ret))
         if isinstance(st, ast.With) and len(st.items) == 1 and ast.unparse(st.items[0].context_expr).startswith("get_pool_executor("):
             return self.tr_body(list(st.body) + rest, env)
         if isinstance(st, ast.Assign) and len(st.targets) == 1:
@@ -505,9 +527,9 @@ class Translator:
                 t, ty = self.tr(st.value, env)
                 v = d if isinstance(tg, ast.Name) else self.gensym(d.replace(".", "_").strip("_"))
                 if isinstance(tg, ast.Name) and d in env: v = self.gensym(d)
-                # a fallible sub-expression binds through the option monad
-                if isinstance(ty, tuple) and ty[0] == "option" and d in env and not (isinstance(env[d][1], tuple) and env[d][1][0] == "option"):
-                    if not sp.fallible: raise Unsupported("option value in total function")
+                # a computation that may raise binds through the option monad
+                if isinstance(ty, tuple) and ty[0] == "result":
+                    if not sp.fallible: raise Unsupported("failing computation in total function")
                     env2 = dict(env); env2[d] = (v, ty[1])
                     b, tb = self.tr_body(rest, env2)
                     return (f"match {t} with None => None | Some {v} =>\n  {b} end", tb)
@@ -602,6 +624,11 @@ class Translator:
         env2 = dict(env); env2[x] = (nv, nty)
         b, tb = self.tr_body(rest, env2)
         return (f"let {nv} := {newval} in\n  {b}", tb)
+
+
+def _names_in(tmpl: str):
+    import string
+    return [f for _, f, _, _ in string.Formatter().parse(tmpl) if f]
 
 
 CONSTS = {"TaskType.MIN": ("MIN", DIR), "TaskType.MAX": ("MAX", DIR)}
